@@ -3,7 +3,9 @@ from driver.common import Case, dd_chunks
 
 ID = "C01"
 LEAN_MODULES = ["Gv.Props.C01"]
-REQUIRED_THEOREMS = []
+REQUIRED_THEOREMS = ["Gv.Props.C01." + n for n in [
+    "step_inv", "run_inv", "inv_of_empty_bag", "inv_of_empty_align", "lookup_paths_agree", "idByName_spec",
+    "byName_found_iff", "add_wrong_length_rejected", "add_wrong_length_error_of_new_name"]]
 LEVEL_TEXT = ("Lean theorems: the implementation-shaped container model (ordered rows with pointer ids + separate name index, "
               "cached alignment length) keeps its representation invariant under every modelled operation and, for histories "
               "that keep names distinct, refines the plain list-of-(name,sequence) reference model, by induction over "
@@ -18,7 +20,13 @@ RULE = ("random histories of 1..12 (quick) / 1..40 (thorough) operations over al
         "sequence sets with ragged lengths, duplicate names, special characters in names, all three duplicate-name policies, "
         "boundary arguments; the full observation vector is compared after every operation; non-trivial = at least two "
         "state-changing operations")
-PARTIAL = []
+PARTIAL = ["refinement theorem `abs (step s op) = Spec.step (abs s) op` (model = plain-list reference) is not yet proved in Lean: "
+           "the reference model is evaluated by the oracle on every generated history instead (verdict of the property predicate); "
+           "proved so far: the representation invariant for all histories and the agreement of the access paths",
+           "rectangularity invariant (cached length = every row's length) is checked by the oracle on the implementation's "
+           "observations after every step, not yet a Lean theorem",
+           "ShuffleSequences / Sample are modelled with their permutation supplied (Op.permute / Op.sample); the Go math/rand "
+           "replica that resolves it belongs to C10"]
 
 NAMES = ["a", "b", "c", "d", "Seq0000", "Seq0001", "a_0001", "x y", " lead", "n(1)", "p:q", "k,l", "t;u", "e.f", "long_name_here", "A"]
 NT = "ACGTacgtNn-RYK*?."
